@@ -7,15 +7,24 @@ D: trees (exhaustive small ones over the converter's vocabulary + random deeper/
    serialised as XML, parsed with ET.fromstring, converted by the implementation, and the PARSED tree
    is handed to the Coq model (variant `fixed` = the code with fixes/C19-*.patch applied); exact output
    string / exception class must agree.  The property oracle (no exception, balance, ordered texts,
-   own operator, no rendered None, determinism) runs on the implementation's output itself.
+   own operator, function-name form, no rendered None, determinism, input tree not mutated) runs on the
+   implementation's output itself; the HISTORY oracle converts sequences of trees in freshly forked processes
+   (tools/props/c19_iso.py) and compares every result with the conversion of the same tree alone.
+   If the literal extraction fails, the G obligation stays broken and the search continues with the committed
+   baseline tables.
 """
 from __future__ import annotations
 
 import ast
 import inspect
 import itertools
+import json
+import re
+import subprocess
+import sys
 from xml.etree import ElementTree as ET
 
+import common
 from common import coq_str, coq_list, coq_opt, coq_eval_shards
 
 MATH = "http://schemas.openxmlformats.org/officeDocument/2006/math"
@@ -35,28 +44,79 @@ INST = ["C19_tables_wf", "C19_structural_not_skipped", "C19_nobrace_witnesses",
 
 
 # ----------------------------------------------------------------------------- G: tables
+ROLE_KEYS = {"op_map": "∑", "func_map": "sin", "accent_map": "̂", "bracket_map": "("}
+
+
 def local_literals(mod):
-    """dict / tuple literals local to omml_to_latex, read from the module's ast (fail closed)."""
+    """The converter's str->str dict literals and the open-bracket collection, read from the module's ast.
+    Tolerant of where they live (module level or local to any function) and of how they are named: a dict is
+    recognised by its role key (the sum sign, "sin", the hat accent, "(").  Fail closed: every role must be found
+    exactly once, GREEK_TO_LATEX excluded."""
     tree = ast.parse(inspect.getsource(mod))
-    fn = [n for n in ast.walk(tree) if isinstance(n, ast.FunctionDef) and n.name == "omml_to_latex"]
-    if len(fn) != 1:
-        raise RuntimeError("omml_to_latex not found exactly once")
-    out = {}
-    for n in ast.walk(fn[0]):
-        if isinstance(n, ast.Assign) and len(n.targets) == 1 and isinstance(n.targets[0], ast.Name) \
-                and n.targets[0].id in ("op_map", "func_map", "accent_map", "bracket_map") and isinstance(n.value, ast.Dict):
-            if n.targets[0].id in out:
-                raise RuntimeError("duplicate literal " + n.targets[0].id)
-            out[n.targets[0].id] = ast.literal_eval(n.value)
+    if not any(isinstance(n, ast.FunctionDef) and n.name == "omml_to_latex" for n in ast.walk(tree)):
+        raise RuntimeError("omml_to_latex not found")
+    dicts = {}   # variable name -> dict
+    for n in ast.walk(tree):
+        tgt = val = None
+        if isinstance(n, ast.Assign) and len(n.targets) == 1:
+            tgt, val = n.targets[0], n.value
+        elif isinstance(n, ast.AnnAssign) and n.value is not None:
+            tgt, val = n.target, n.value
+        if isinstance(tgt, ast.Name) and isinstance(val, ast.Dict) and tgt.id != "GREEK_TO_LATEX":
+            try:
+                d = ast.literal_eval(val)
+            except Exception:  # noqa
+                continue
+            if d and all(isinstance(k, str) and isinstance(v, str) for k, v in d.items()):
+                if tgt.id in dicts and dicts[tgt.id] != d:
+                    raise RuntimeError("dict literal assigned twice with different values: " + tgt.id)
+                dicts[tgt.id] = d
+    out, names = {}, {}
+    for role, key in ROLE_KEYS.items():
+        hits = [nm for nm, d in dicts.items() if key in d]
+        if len(hits) != 1:
+            raise RuntimeError(f"converter literal for {role} (a str->str dict with key {key!r}) found {len(hits)} times: {hits}")
+        out[role], names[role] = dicts[hits[0]], hits[0]
+    opens = []
+    for n in ast.walk(tree):
         if isinstance(n, ast.Compare) and len(n.ops) == 1 and isinstance(n.ops[0], ast.In) \
-                and isinstance(n.comparators[0], ast.Tuple) and "content_text" in ast.unparse(n.left):
-            if "open_brackets" in out:
-                raise RuntimeError("duplicate open-bracket tuple")
-            out["open_brackets"] = list(ast.literal_eval(n.comparators[0]))
-    missing = [k for k in ("op_map", "func_map", "accent_map", "bracket_map", "open_brackets") if k not in out]
-    if missing:
-        raise RuntimeError("converter literals not found: " + ", ".join(missing))
+                and "content_text" in ast.unparse(n.left):
+            c = n.comparators[0]
+            if isinstance(c, (ast.Tuple, ast.List, ast.Set)):
+                opens.append(list(ast.literal_eval(c)))
+            elif isinstance(c, ast.Name) and c.id == names["bracket_map"]:
+                opens.append(list(out["bracket_map"]))
+            else:
+                raise RuntimeError("malformed-radical test against an unknown collection: " + ast.unparse(c))
+    if len(opens) != 1:
+        raise RuntimeError(f"malformed-radical membership test found {len(opens)} times")
+    out["open_brackets"] = opens[0]
     return out
+
+
+def parse_coq_str(t):
+    t = t.strip()
+    if t.startswith('(s "'):
+        return t[4:-2].replace('""', '"')
+    m = re.fullmatch(r"\[([0-9; ]*)\]%N", t)
+    if not m:
+        raise ValueError("unparsable Coq string literal: " + t[:40])
+    return "".join(chr(int(x)) for x in m.group(1).split(";") if x.strip())
+
+
+def baseline_literals():
+    """literals of the committed baseline Gen/C19Tables.v (HEAD of the verif checkout, else the file on disk)"""
+    rc, txt = common.sh(["git", "-C", str(common.VERIF), "show", "HEAD:coq/Gen/C19Tables.v"])
+    if rc != 0 or "Definition T : tables" not in txt:
+        txt = (common.COQ / "Gen/C19Tables.v").read_text()
+    lit = r'(?:\(s "(?:[^"]|"")*"\)|\[[0-9;]*\]%N)'
+    out = {}
+    for role in ROLE_KEYS:
+        body = re.search(r"\b" + role + r" := \[(.*?)\];\n", txt, re.S).group(1)
+        out[role] = {parse_coq_str(k): parse_coq_str(v) for k, v in re.findall(rf"\(({lit}), ({lit})\)", body)}
+    body = re.search(r"\bopen_brackets := \[(.*?)\];\n", txt, re.S).group(1)
+    out["open_brackets"] = [parse_coq_str(x) for x in re.findall(lit, body)]
+    return out, txt
 
 
 def gen_tables(ctx, mod):
@@ -66,8 +126,20 @@ def gen_tables(ctx, mod):
         loc = local_literals(mod)
         ctx.obligation("G:converter-literals-extracted", True)
     except Exception as e:  # noqa
-        ctx.obligation("G:converter-literals-extracted", False, repr(e))
-        return None
+        # keep the obligation broken, but go on searching for a failing input with the committed baseline tables
+        try:
+            loc, txt = baseline_literals()
+        except Exception as e2:  # noqa
+            ctx.obligation("G:converter-literals-extracted", False, repr(e) + " / no baseline: " + repr(e2))
+            return None
+        ctx.obligation("G:converter-literals-extracted", False,
+                       repr(e) + " — continuing with the committed baseline Gen/C19Tables.v")
+        ctx.gen_write("Gen/C19Tables.v", txt)
+        ctx.extra["tables"] = "baseline (literal extraction failed)"
+        loc["greek"] = dict(getattr(mod, "GREEK_TO_LATEX", {}))
+        loc["skip"] = set(getattr(mod, "_SKIP_TAGS", ()))
+        loc["m_ns"] = getattr(mod, "M_NS", "{" + MATH + "}")
+        return loc
     spaces = [c for c in range(0x110000) if chr(c).isspace()]
     txt = "(* GENERATED on every check run from the live omml_to_latex module — do not edit. *)\n"
     txt += "From S2T Require Import Lib.PyStr C19.Model.\n\nDefinition T : tables := {|\n"
@@ -172,7 +244,7 @@ def pr_variants(kind, full):
     return out
 
 
-def exhaustive(ctx):
+def exhaustive(ctx, tabs=None):
     """every kind x property variant x slot present/absent x small operands; nestings; top-level sequences"""
     ops = [None, [], [mrun("x")], [mrun("(")], [mrun("a)")], [mrun("α ")]]
     cases = []
@@ -234,6 +306,21 @@ def exhaustive(ctx):
     for kind in KINDS:
         inner = simple(kind, "i0", simple("m", "n0"))
         cases.append((f"nest:m/{kind}", wrap([simple("m", "o0", inner)])))
+    # function names: every key of func_map, its proper substrings and superstrings, single letters, case variants,
+    # non-alphabetic names, surrounding whitespace
+    keys = list(tabs["func_map"]) if tabs else ["sin", "cos", "tan", "log", "ln", "lim", "exp", "max", "min"]
+    names = set(keys)
+    for k in keys:
+        names |= {k[i:j] for i in range(len(k)) for j in range(i + 1, len(k) + 1)}
+        names |= {k + "h", "a" + k, k + k, k + " ", " " + k, k + " x", k.upper(), k.capitalize(), k[:-1] + k[-1].upper(),
+                  k + "2", k + "_", k + "'"}
+    names |= set("abcdefghijklmnopqrstuvwxyzGX") | {"", " ", "1", "+", "f g", "sin cos", "α", "sinα", "\\sin", "s in", "n l"}
+    for nm in sorted(names):
+        fname = [mrun(nm)] if nm else []
+        cases.append(("func-name", wrap([N("m:func", N("m:funcPr"), N("m:fName", *fname), N("m:e", mrun("t")))])))
+    for k in keys[:3]:
+        cases.append(("func-name", wrap([N("m:func", N("m:fName", mrun(k[:1]), mrun(k[1:])), N("m:e", mrun("t")))])))
+        cases.append(("func-name", wrap([N("m:func", N("m:fName", N("m:limLow", N("m:e", mrun(k)), N("m:lim", mrun("x")))), N("m:e", mrun("t")))])))
     # top-level sequences (pending-radical interplay)
     pool = [mrun("("), mrun("a)"), mrun("b]"), mrun(")c)"), mrun("x"),
             N("m:rad", N("m:deg"), N("m:e", mrun("("))), N("m:rad", N("m:deg", mrun("3")), N("m:e", mrun("["))),
@@ -447,6 +534,15 @@ def expected_operator(e, tabs):
     """documented operator of a top-level nary/d/acc from its OWN property child (None: no expectation)"""
     ns = tabs["m_ns"]
     lt = local(e.tag)
+    if e.tag == ns + "func":
+        # documented form: func_map.get(name.strip(), name) + "{" — only when the name is made of plain runs
+        fn = [c for c in e if c.tag == ns + "fName"]
+        if not fn or any(local(x.tag) not in ("fName", "r", "t") for x in fn[0].iter()):
+            return None
+        name = "".join(tabs["greek"].get(ch, ch) for x in fn[0].iter() if local(x.tag) == "t" for ch in (x.text or ""))
+        if any(ch in name for ch in ")]}"):
+            return None
+        return tabs["func_map"].get(name.strip(), name) + "{"
     if e.tag != ns + lt or lt not in ("nary", "d", "acc"):
         return None
     own = None
@@ -544,10 +640,11 @@ def check_tree(ctx, mod, tabs, tree, lost, kind):
     def report(key_prefix, what, pred):
         cat = key_prefix.split(":")[0]
         REPORTED[cat] = REPORTED.get(cat, 0) + 1
-        if REPORTED[cat] > 2:  # two minimised inputs per kind of failure are enough; the rest is counted
+        if REPORTED[cat] > (1 if cat == "nondeterministic" else 2):  # two minimised inputs per kind of failure are enough; the rest is counted
             ctx.count("further-failures:" + cat)
             return
-        small = shrink(mod, tree, pred)
+        # a result that depends on process state cannot be minimised reliably in-process (see the history oracle)
+        small = tree if cat == "nondeterministic" else shrink(mod, tree, pred)
         sx = to_xml(small)
         _, o2, x2 = impl(mod, to_xml(small, root=True))
         ctx.finding(f"{key_prefix}:{sx}"[:300], f"{what}: omml_to_latex on {sx} -> {o2!r} {x2}",
@@ -559,7 +656,19 @@ def check_tree(ctx, mod, tabs, tree, lost, kind):
                lambda v: impl(mod, to_xml(v, root=True))[2] == exc)
     else:
         e2, out2, exc2 = impl(mod, xml)
-        if out2 != out or mod.omml_to_latex(e) != out:
+        before = ET.tostring(e)
+        again = mod.omml_to_latex(e)
+        if ET.tostring(e) != before or ET.tostring(e) != ET.tostring(e2):
+            def pm(v):
+                ev = ET.fromstring(to_xml(v, root=True))
+                b0 = ET.tostring(ev)
+                try:
+                    mod.omml_to_latex(ev)
+                except Exception:  # noqa
+                    return False
+                return ET.tostring(ev) != b0
+            report("tree-mutated", "the conversion modifies its input tree", pm)
+        if out2 != out or again != out:
             report("nondeterministic", "two conversions of the same tree differ",
                    lambda v: impl(mod, to_xml(v, root=True))[1] != impl(mod, to_xml(v, root=True))[1])
         if not has_braces(e) and not balanced(out):
@@ -588,7 +697,8 @@ def check_tree(ctx, mod, tabs, tree, lost, kind):
                 w = expected_operator(ev[0], tabs)
                 return w is not None and not ov.startswith(w)
             if p(tree):
-                report("operator-not-own", "n-ary/delimiter/accent does not use the character of its own property child", p)
+                report("operator-not-own", "n-ary/delimiter/accent does not use the character of its own property child, "
+                       "or a function name is not rendered as func_map.get(name.strip(), name)", p)
         if "None" in out and "None" not in xml:
             def p(v):
                 x = to_xml(v, root=True)
@@ -600,6 +710,110 @@ def check_tree(ctx, mod, tabs, tree, lost, kind):
     ctx.case(xml, nontriv, kind=kind.split("/")[0])
     coq = f"({el_to_coq(e)}, {coq_opt(out, coq_str)}, {coq_str(exc)})"
     return coq, (xml, out, exc)
+
+
+class Iso:
+    """tools/props/c19_iso.py as a server: every job (a sequence of XML strings) is converted in its own forked process"""
+    def __init__(self):
+        self.p = subprocess.Popen([sys.executable, str(common.VERIF / "tools/props/c19_iso.py")],
+                                  stdin=subprocess.PIPE, stdout=subprocess.PIPE, text=True)
+
+    def run(self, job):
+        self.p.stdin.write(json.dumps(job) + "\n")
+        self.p.stdin.flush()
+        line = self.p.stdout.readline()
+        if not line:
+            raise RuntimeError("c19_iso helper died")
+        r = json.loads(line)
+        return [tuple(x) for x in r] if r is not None else [(None, "ChildDied")] * len(job)
+
+    def close(self):
+        try:
+            self.p.stdin.close()
+            self.p.wait(timeout=10)
+        except Exception:  # noqa
+            self.p.kill()
+
+
+def history_pools(ctx, tabs):
+    lone = lambda b, deg=None: N("m:rad", N("m:deg", *([mrun(deg)] if deg else [])), N("m:e", mrun(b)))
+    unclosed = [
+        wrap([lone("("), mrun("x+y")]),
+        wrap([N("m:d", N("m:dPr", N("m:begChr", val="["), N("m:endChr", val="]")), N("m:e", lone("("), mrun("x+y")))]),
+        wrap([N("m:d", N("m:e", lone("["), mrun("u")), N("m:e", mrun("v"))), mrun("w")]),
+        wrap([N("m:f", N("m:num", lone("(", "3"), mrun("p")), N("m:den", mrun("q")))]),
+        wrap([N("m:m", N("m:mr", N("m:e", lone("(")), N("m:e", mrun("b"))), N("m:mr", N("m:e", mrun("c"))))]),
+        wrap([N("m:nary", N("m:sub", lone("[")), N("m:sup"), N("m:e", mrun("k")))]),
+        wrap([N("m:func", N("m:fName", mrun("sin")), N("m:e", lone("("), mrun("t")))]),
+        wrap([N("m:sSup", N("m:e", lone("(")), N("m:sup", mrun("2")))]),
+        wrap([N("m:d", N("m:e", N("m:d", N("m:e", lone("("), lone("[")))))]),
+        wrap([N("m:acc", N("m:e", lone("{")))]),
+    ]
+    detectors = [
+        wrap([mrun("f(a)b")]),
+        wrap([N("m:d", N("m:e", mrun("f(a)b")), N("m:e", mrun("c")))]),
+        wrap([N("m:f", N("m:num", mrun("g[1]")), N("m:den", mrun("h(2)")))]),
+        wrap([N("m:m", N("m:mr", N("m:e", mrun("a)")), N("m:e", mrun("b]"))))]),
+        wrap([N("m:d", N("m:dPr", N("m:begChr", val="{"), N("m:endChr", val="}")), N("m:e", mrun("s}t")))]),
+        wrap([lone("("), mrun("z)")]),
+        wrap([N("m:d", N("m:e", lone("("), mrun("z)")))]),
+        wrap([N("m:nary", N("m:sub", mrun("i)")), N("m:sup", mrun("n]")), N("m:e", mrun("(x)")))]),
+        wrap([N("m:func", N("m:fName", mrun("lim")), N("m:e", mrun("(y)")))]),
+        wrap([mrun("plain")]),
+    ]
+    rnd = [random_tree(ctx.rng, tabs, i % 3 == 0) for i in range(ctx.n(40, 300))]
+    return unclosed, detectors, rnd
+
+
+def history_oracle(ctx, mod, tabs):
+    """the result of a conversion must not depend on the conversions done before it in the same process"""
+    iso = Iso()
+    try:
+        unclosed, detectors, rnd = history_pools(ctx, tabs)
+        X = lambda t: to_xml(t, root=True)
+        ref = {}
+
+        def alone(t):
+            x = X(t)
+            if x not in ref:
+                ref[x] = iso.run([x])[0]
+            return ref[x]
+        jobs = [[a, b] for a in unclosed for b in detectors + unclosed] + [[b, a] for a in unclosed[:4] for b in detectors[:4]]
+        pool = unclosed + detectors + rnd
+        for _ in range(ctx.n(150, 2000)):
+            jobs.append([ctx.rng.choice(pool) for _ in range(ctx.rng.randint(2, 6))])
+        reported = 0
+        for job in jobs:
+            res = iso.run([X(t) for t in job])
+            ctx.case(("history", tuple(X(t) for t in job)), True, kind="history")
+            bad = next((k for k, (t, r) in enumerate(zip(job, res)) if r != alone(t)), None)
+            if bad is None:
+                continue
+            reported += 1
+            if reported > 2:
+                ctx.count("further-failures:history")
+                continue
+            # minimal 2-element sequence, then minimise both trees
+            victim = job[bad]
+            first = next((t for t in job[:bad] if iso.run([X(t), X(victim)])[1] != alone(victim)), None)
+            if first is None:
+                ctx.finding("history:" + " ; ".join(to_xml(t) for t in job[:bad + 1])[:280],
+                            f"conversion #{bad + 1} of a sequence differs from the conversion of the same tree alone: "
+                            f"{res[bad]} vs {alone(victim)}",
+                            {"sequence_xml": [X(t) for t in job[:bad + 1]], "in_sequence": res[:bad + 1],
+                             "alone": alone(victim), "replay": "convert the sequence in one fresh process (tools/props/c19_iso.py)"})
+                continue
+            first = shrink(mod, first, lambda v: iso.run([X(v), X(victim)])[1] != alone(victim))
+            victim = shrink(mod, victim, lambda v: iso.run([X(first), X(v)])[1] != alone(v))
+            got = iso.run([X(first), X(victim)])[1]
+            ctx.finding(("history:" + to_xml(first) + " ; " + to_xml(victim))[:300],
+                        f"the result depends on an earlier conversion in the same process: after converting {to_xml(first)} "
+                        f"the tree {to_xml(victim)} converts to {got[0]!r} {got[1]}, alone to {alone(victim)[0]!r} {alone(victim)[1]}",
+                        {"sequence_xml": [X(first), X(victim)], "second_after_first": got, "second_alone": alone(victim),
+                         "replay": "convert both in this order in one fresh process (tools/props/c19_iso.py)"})
+        ctx.extra["history_jobs"] = len(jobs)
+    finally:
+        iso.close()
 
 
 VARIANTS = {"fixed": "fixed", "orig": "orig"}
@@ -636,8 +850,11 @@ def run(ctx):
     ctx.prove("C19/Props.v", ["C19/Proofs.vo", "C19/Texts.vo"], expected=THEOREMS)
     ctx.prove("C19/Inst.v", ["Gen/C19Tables.vo", "C19/Corr.vo", "C19/Proofs.vo", "C19/TextSpec.vo"], expected=INST)
 
+    # ---- history oracle (forked processes; independent of what this process has converted so far)
+    history_oracle(ctx, mod, tabs)
+
     # ---- cases
-    cases = exhaustive(ctx)
+    cases = exhaustive(ctx, tabs)
     if ctx.tier == "quick":
         head = [c for c in cases if not c[0].startswith("seq3")]
         tail = [c for c in cases if c[0].startswith("seq3")]
